@@ -301,6 +301,10 @@ func parseServiceConfigs(data []byte) ([]*ServiceConfig, error) {
 }
 
 func resolveExtraRoute(routeConfig *RouteConfig, src *UpstreamConfig) (*UpstreamConfig, error) {
+	if routeConfig == nil {
+		// an `extra_routes` entry that is just a dash
+		return nil, &ErrParsingConfig{Message: "empty extra route"}
+	}
 	dst := &UpstreamConfig{RouteConfig: *routeConfig}
 
 	err := mergo.Merge(dst, *src)
@@ -314,6 +318,10 @@ func resolveExtraRoute(routeConfig *RouteConfig, src *UpstreamConfig) (*Upstream
 }
 
 func resolveUpstreamConfig(service *ServiceConfig, override string) (*UpstreamConfig, error) {
+	if service == nil {
+		// a list entry that is just a dash
+		return nil, &ErrParsingConfig{Message: "empty service entry"}
+	}
 	dst, dstOk := service.ClusterConfigs["default"]
 	src, srcOk := service.ClusterConfigs[override]
 
